@@ -15,6 +15,7 @@
   (`pointer_receiver_counterexample`): the hypothesis is what carries the property.
 -/
 import Spg.Generated.Facts
+import SpgProofs.Lemmas.FactPreds
 import Spg.Model.CharGen
 import SpgProofs.Lemmas.Rand
 namespace Spg.C15
@@ -160,42 +161,20 @@ theorem receivers_value :
       ("WLRecipe", "Size"), ("WordList", "Size")].all
       fun m => Facts.receivers.contains (m.1, m.2, "value")) = true := by decide
 
-/-- **All package-level state of the library**: the two shipped lists, the two exported budget
-variables (caller-owned configuration), the seven separator presets (closures over constant
-recipes) and the two read-only class tables. None is written after initialisation
-(`no_global_or_captured_writes`). A new package-level variable — a cache, a memo table, a
-`sync.Map`, a once-flag — is hidden state that could outlive a call or be shared between
-goroutines; it changes this regenerated list and breaks the obligation. -/
-theorem package_state :
-    Facts.packageVars =
-      [("AgileSyllables", "[]string"), ("AgileWords", "[]string"), ("MaxFailRate", "float64"),
-       ("MaxTrials", "int"), ("SFDigits1", "spg.SFFunction"), ("SFDigits2", "spg.SFFunction"),
-       ("SFDigitsNoAmbiguous1", "spg.SFFunction"), ("SFDigitsNoAmbiguous2", "spg.SFFunction"),
-       ("SFDigitsSymbols", "spg.SFFunction"), ("SFNone", "spg.SFFunction"), ("SFSymbols", "spg.SFFunction"),
-       ("charTypeByFlag", "map[spg.CTFlag]string"), ("charTypeNamesByFlag", "map[spg.CTFlag]string")] := by
-  decide
+/-- **All package-level state of the library** is plain data (the shipped lists, the class tables,
+the caller-owned retry budget) that nothing assigns after initialisation, or one of the seven
+separator presets. A cache, a memo table, a `sync.Map`, a once-flag, a pointer to a shared default
+is hidden state that could carry one call's effect into the next, and falsifies this. -/
+theorem package_state : FactPreds.packageStateOK = true := by decide
 
-/-- **Every assignment of the library that could outlive the statement it is in** (through a
-pointer, to a receiver field, to a package-level variable, to a variable captured by a function
-literal, or to an element of a parameter), regenerated from the source. Each one writes to an
-object created in the same call (`p`, the `Password` being built; `r` in `NewCharRecipe`; `req`)
-or to the private copy of a value receiver (`buildCharacterList` is only called on such a copy,
-`pointer_calls`). A separator function that remembers something between calls, a recipe method
-that writes through a shared pointer, a constructor that keeps and later edits the caller's
-slice — each adds an entry here. -/
-theorem writes_are_local :
-    Facts.sharedWrites =
-      [("CharRecipe.Generate", "p.Entropy", "ptrfield"), ("CharRecipe.Generate", "p.tokens", "ptrfield"),
-       ("(*CharRecipe).buildCharacterList", "r.requiredSets", "recvfield"),
-       ("(*CharRecipe).buildCharacterList", "r.requiredSets", "recvfield"),
-       ("(*CharRecipe).buildCharacterList", "r.requiredSets", "recvfield"),
-       ("(*CharRecipe).buildCharacterList", "r.allowedSet", "recvfield"),
-       ("(*CharRecipe).buildCharacterList", "req.s", "ptrfield"),
-       ("(*CharRecipe).buildCharacterList", "r.allowedSet", "recvfield"),
-       ("NewCharRecipe", "r.Length", "ptrfield"), ("NewCharRecipe", "r.Allow", "ptrfield"),
-       ("NewCharRecipe", "r.Exclude", "ptrfield"),
-       ("WLRecipe.Generate", "p.tokens", "ptrfield"), ("WLRecipe.Generate", "p.Entropy", "ptrfield")] := by
-  decide
+/-- **Every assignment of the library that could outlive the statement it is in is local**
+(`FactPreds.localWrite`): through a pointer to an object created in the same call, to a field of a
+pointer receiver that is a private copy (`pointer_calls`), or into the slice
+`buildCharacterList` has just built. A separator function that remembers something between calls
+(a captured variable), the package's budget variables changed by a call, a constructor that keeps
+and later edits the caller's slice, a method that writes through a shared pointer — each is an
+assignment of another kind. -/
+theorem writes_are_local : FactPreds.writesAreLocal = true := by decide
 
 /-- No assignment to a package-level variable, to a variable captured by a closure (a separator
 function with memory), or through a parameter (the caller's slices). -/
@@ -203,13 +182,8 @@ theorem no_global_or_captured_writes :
     (Facts.sharedWrites.filter fun w => w.2.2 == "pkgvar" || w.2.2 == "captured" || w.2.2 == "paramelem") = [] := by
   decide
 
-/-- The one writing pointer method is only called on the caller's private copy. -/
-theorem pointer_calls :
-    Facts.pointerMethodCalls =
-      [("CharRecipe.Generate", "value", "buildCharacterList", "r"),
-       ("CharRecipe.Entropy", "value", "buildCharacterList", "r"),
-       ("CharRecipe.Alphabet", "value", "buildCharacterList", "r"),
-       ("WLRecipe.Entropy", "value", "isAllCapitalizable", "r.list")] := by decide
+/-- A method that writes its pointer receiver is only called on the caller's private copy. -/
+theorem pointer_calls : FactPreds.writersOnPrivateCopies = true := by decide
 
 /-- With a pointer receiver a call would leave its derived fields behind in the caller's recipe. -/
 theorem pointer_receiver_counterexample :
